@@ -49,6 +49,10 @@ pub(crate) struct DhtHandler {
     refresh: TableRefresh,
     // Ongoing TableLookups.
     lookups: HashMap<ActionID, TableLookup>,
+    // Whether the initial bootstrap has completed.
+    initial_bootstrap_done: bool,
+    // Lookups requested before the initial bootstrap completed; started once it has.
+    queued_lookups: Vec<StartLookup>,
 }
 
 impl DhtHandler {
@@ -107,6 +111,8 @@ impl DhtHandler {
             bootstrap_txs: HashMap::new(),
             refresh: table_refresh,
             lookups: HashMap::new(),
+            initial_bootstrap_done: false,
+            queued_lookups: Vec::new(),
         }
     }
 
@@ -437,10 +443,23 @@ impl DhtHandler {
 
         // Start the refresh action.
         self.handle_check_table_refresh().await;
+
+        // Start the lookups that were requested while the initial bootstrap was in progress.
+        self.initial_bootstrap_done = true;
+        for lookup in std::mem::take(&mut self.queued_lookups) {
+            self.handle_start_lookup(lookup).await;
+        }
     }
 
     async fn handle_start_lookup(&mut self, lookup: StartLookup) {
-        // Start the lookup right now if not bootstrapping
+        // The routing table is still empty (or nearly so) during the initial bootstrap and a lookup
+        // started now would end at once without finding anything. Queue it until the bootstrap
+        // completes, as documented on `MainlineDht::search`.
+        if !self.initial_bootstrap_done {
+            self.queued_lookups.push(lookup);
+            return;
+        }
+
         let mid_generator = self.aid_generator.generate();
         let action_id = mid_generator.action_id();
 
